@@ -15,3 +15,13 @@ func init() {
 	l.SetOutput(io.Discard)
 	l.SetLevel(logrus.PanicLevel)
 }
+
+// withTraceLogging runs fn with the library logger at trace level (output still discarded): code that only runs
+// when an application has turned diagnostics on is library code too.
+func withTraceLogging(fn func()) {
+	l := logger.GetLogger()
+	old := l.GetLevel()
+	l.SetLevel(logrus.TraceLevel)
+	defer l.SetLevel(old)
+	fn()
+}
